@@ -21,6 +21,7 @@ def run(tier, seed):
     _collisions(c, tier, seed)
     headfrag.run(c, tier, seed, ())
     headfrag.run_entities(c, tier, seed, ())
+    headfrag.run_mixed(c, tier, seed, ())
     c.assumptions += ["tokenizer totality is validated by testing, not proved (PARTIAL, see DESIGN.md C02)"]
     return c.finish()
 
